@@ -4,6 +4,7 @@ import (
 	"errors"
 	"fmt"
 	"strings"
+	"sync"
 	"sync/atomic"
 	"time"
 
@@ -26,7 +27,10 @@ func (g goodStruct) Method() string { return "m<" + g.B + ">" }
 func c08Syntax(r *core.Run) {
 	snippets := c08Snippets
 	contexts := []string{`%s`, `<a title="%s">`, `<a href="%s">`, `<a href="/p?q=%s">`, `<script>%s</script>`, `<textarea>%s</textarea>`, `<a %s>`, `<!--%s-->`, `<style>%s</style>`, `<a title=%s>`,
-		`<img srcset="%s">`, `<a dir="%s">`, `<a id="%s">`, `<a style="%s">`, `<%s>`, `<a title='%s' href="%s">`, `<script src="%s"></script>`, `<iframe srcdoc="%s"></iframe>`}
+		`<img srcset="%s">`, `<a dir="%s">`, `<a id="%s">`, `<a style="%s">`, `<%s>`, `<a title='%s' href="%s">`, `<script src="%s"></script>`, `<iframe srcdoc="%s"></iframe>`,
+		// script text with ES6 template literals (the analyser scans them for balance), comments, odd endings
+		"<script>var s = `it\\`s`;</script>%s", "<script>var s = `a${1}b\\${c}`;</script>%s", "<script>`\\\\`</script>%s", "<script>// `\n/* ` */ '`' \"`\"</script>%s", "<script>`${`${1}`}`</script>%s",
+		"<style>/* ` */ a{}</style>%s", "<!-- %s", "%s<!--", "<textarea>%s", "<a title=\"%s", "<script>`</script>%s", "<xmp>%s</xmp>", "<iframe>%s</iframe>%s", "<noscript><p title=\"%s\"></noscript>"}
 	var np *string
 	var ns *nilStringer
 	var nilErr error
@@ -47,6 +51,7 @@ func c08Syntax(r *core.Run) {
 	ps := &str
 	firstCyclic := len(shapes)
 	shapes = append(shapes, sp, &sp, ca, &ps, struct{ P selfPtr }{sp}, map[string]interface{}{"A": sp}, []interface{}{sp})
+	var hungContexts sync.Map
 	var hangSeen int32 // after the first hang the cyclic shapes are skipped: every abandoned execution keeps a core busy
 	var programs, execs, panics int64
 	r.Set("cyclic_pointer_snippets", fmt.Sprintf("%d of %d snippets (in the others text/template itself follows the pointer cycle)", len(snippets)-len(c08StdFollowsPointer), len(snippets)))
@@ -74,6 +79,9 @@ func c08Syntax(r *core.Run) {
 		}
 		atomic.AddInt64(&programs, 1)
 		for si, sh := range shapes {
+			if _, hung := hungContexts.Load(j.ctx); hung || r.Expired() {
+				return // every execution in this context would wait for the watchdog again
+			}
 			for _, c := range []bool{true, false} {
 				if si >= firstCyclic && (!j.cyc || atomic.LoadInt32(&hangSeen) != 0) {
 					continue
@@ -91,6 +99,7 @@ func c08Syntax(r *core.Run) {
 				res, hung := execGuarded(p, &d)
 				atomic.AddInt64(&execs, 1)
 				if hung {
+					hungContexts.Store(j.ctx, true)
 					atomic.StoreInt32(&hangSeen, 1)
 					r.Witness("hang", "syntax", text, fmt.Sprintf("executing %s with %T did not return within 2 x 20 s", core.Q(text), sh), map[string]string{"Program": text, "Shape": fmt.Sprintf("%T", sh)})
 					continue
